@@ -98,11 +98,28 @@ func ruleOU2(c *Ctx) {
 		// dominated by Execute() != nil edge
 		var execCall *ssa.Call
 		for _, c2 := range callsIn(ex) {
-			if strings.HasSuffix(calleeFullName(c2.Common()), "cobra.Command).Execute") {
+			if n := calleeFullName(c2.Common()); strings.HasSuffix(n, "cobra.Command).Execute") || strings.HasSuffix(n, "cobra.Command).ExecuteC") {
 				execCall, _ = c2.(*ssa.Call)
 			}
 		}
-		if execCall != nil && mustPassEdges(ex, call.Block(), nonNilErrEdges(ex, execCall)) && strip(call.Common().Args[0]) == ssa.Value(execCall) {
+		if execCall == nil {
+			continue
+		}
+		// the error value: the call itself (Execute) or its second result (ExecuteC)
+		var errVal ssa.Value = execCall
+		if execCall.Call.Signature().Results().Len() == 2 {
+			errVal = nil
+			for _, r := range *execCall.Referrers() {
+				if exx, ok := r.(*ssa.Extract); ok && exx.Index == 1 {
+					errVal = exx
+				}
+			}
+		}
+		if errVal == nil {
+			continue
+		}
+		nonNil := edgesWhere(ex, func(a Atom, holds bool) bool { return a.Kind == "nil" && !holds && strip(a.X) == errVal })
+		if len(nonNil) > 0 && mustPassEdges(ex, call.Block(), nonNil) && strip(call.Common().Args[0]) == errVal {
 			okEx = true
 		}
 	}
@@ -133,11 +150,34 @@ func ruleOU2(c *Ctx) {
 	c.check(okExit, "main.exitErr", "always-exits-nonzero", c.FnPos(ee), "every path ends in os.Exit with a non-zero constant", "exitErr can return or exit with status 0: a failing command reports success")
 	okStderr := false
 	for _, call := range callsNamed(ee, "fmt.Fprintln", "fmt.Fprintf", "fmt.Fprint") {
-		if isGlobalLoad(call.Common().Args[0], "Stderr") && call.Block() == ee.Blocks[0] {
+		if !isGlobalLoad(call.Common().Args[0], "Stderr") {
+			continue
+		}
+		// unconditional: no exit is reachable from the entry without passing this write
+		without := reach(ee.Blocks[0], nil, map[*ssa.BasicBlock]bool{call.Block(): true})
+		all := call.Block() == ee.Blocks[0] || len(exits) > 0
+		for _, x := range exits {
+			if call.Block() != ee.Blocks[0] && without[x.Block()] {
+				all = false
+			}
+		}
+		if all {
 			okStderr = true
 		}
 	}
+	// text on stdout is not an explanation channel; one JSON error object under --json is (C16 allows at most one)
 	nStdout := 0
+	jsonFlag := func(blk *ssa.BasicBlock) bool {
+		g := edgesWhere(ee, func(a Atom, holds bool) bool {
+			if a.Kind != "bool" || !holds {
+				return false
+			}
+			_, n, ok := fieldLoad(a.X)
+			return ok && n == "JSON"
+		})
+		return len(g) > 0 && mustPassEdges(ee, blk, g)
+	}
+	nJSON := 0
 	for _, call := range callsIn(ee) {
 		nme := calleeFullName(call.Common())
 		if strings.HasPrefix(nme, "fmt.Print") {
@@ -146,8 +186,27 @@ func ruleOU2(c *Ctx) {
 		if strings.HasPrefix(nme, "fmt.Fprint") && !isGlobalLoad(call.Common().Args[0], "Stderr") {
 			nStdout++
 		}
+		// a module JSON writer handed os.Stdout: fine behind the --json flag, once
+		if cal := calleeOf(call.Common()); cal != nil && c.InModule(cal) {
+			toStdout := false
+			for _, a := range call.Common().Args {
+				if mi, ok := a.(*ssa.MakeInterface); ok && isGlobalLoad(mi.X, "Stdout") || isGlobalLoad(a, "Stdout") {
+					toStdout = true
+				}
+			}
+			if toStdout {
+				if jsonFlag(call.Block()) && !inCycle(call.Block()) {
+					nJSON++
+				} else {
+					nStdout++
+				}
+			}
+		}
 	}
-	c.check(okStderr && nStdout == 0, "main.exitErr", "explains-on-stderr", c.FnPos(ee), "the error is written to os.Stderr unconditionally, nothing to stdout", fmt.Sprintf("stderr-first=%v stdout-writes=%d", okStderr, nStdout))
+	if nJSON > 1 {
+		nStdout += nJSON - 1
+	}
+	c.check(okStderr && nStdout == 0, "main.exitErr", "explains-on-stderr", c.FnPos(ee), "the error is written to os.Stderr unconditionally; stdout gets nothing but at most one JSON error object behind --json", fmt.Sprintf("stderr-first=%v stdout-writes=%d", okStderr, nStdout))
 	// SilenceErrors / SilenceUsage
 	init := c.Main.Func("init")
 	silE, silU := false, false
@@ -238,10 +297,30 @@ func ruleOU5(c *Ctx) {
 }
 
 func safeStringBound(v ssa.Value) bool {
+	st := &boundState{onStack: map[ssa.Value]bool{}}
+	ok := st.safe(v)
+	// a loop-carried offset (i = phi(0, i+k)) is only safe when every step is itself a rune size (utf8.DecodeRune*,
+	// utf8.RuneLen): a byte counter stepping by a constant lands inside multi-byte characters
+	return ok && !(st.cyclic && st.constStep)
+}
+
+type boundState struct {
+	onStack   map[ssa.Value]bool
+	cyclic    bool
+	constStep bool
+}
+
+func (st *boundState) safe(v ssa.Value) bool {
 	v = resolve(v)
 	if k, ok := constInt(v); ok {
 		return k == 0
 	}
+	if st.onStack[v] {
+		st.cyclic = true
+		return true
+	}
+	st.onStack[v] = true
+	defer delete(st.onStack, v)
 	switch x := v.(type) {
 	case *ssa.Extract:
 		if nx, ok := x.Tuple.(*ssa.Next); ok && nx.IsString {
@@ -260,10 +339,20 @@ func safeStringBound(v ssa.Value) bool {
 			return true
 		}
 	case *ssa.BinOp:
-		return safeStringBound(x.X) && (safeStringBound(x.Y) || isSmallConst(x.Y))
+		if !st.safe(x.X) {
+			return false
+		}
+		if st.safe(x.Y) {
+			return true
+		}
+		if isSmallConst(x.Y) {
+			st.constStep = true
+			return true
+		}
+		return false
 	case *ssa.Phi:
 		for _, e := range x.Edges {
-			if !safeStringBound(e) {
+			if !st.safe(e) {
 				return false
 			}
 		}
